@@ -72,6 +72,8 @@ theorem filter_succ_length (k : Key) (log : List (Tid × Res)) :
       | touched _ => simp [isSucc] at he
       | broken _ => simp [isSucc] at he
       | sized _ => simp [isSucc] at he
+      | threw => simp [isSucc] at he
+      | count _ _ _ _ => simp [isSucc] at he
     · exact ih
 
 /-- the part of the invariant the winner count needs -/
@@ -112,6 +114,8 @@ theorem one_winner_core {rule} {L : LSt} {log : List (Tid × Res)} (g : Good rul
     | touched _ => simp [isSucc] at hs
     | broken _ => simp [isSucc] at hs
     | sized _ => simp [isSucc] at hs
+    | threw => simp [isSucc] at hs
+    | count _ _ _ _ => simp [isSucc] at hs
   have hle : (s.log.filter (isSucc k)).length ≤ 1 := by
     rw [← filter_succ_length]
     refine length_le_one_of_all_eq hnd ?_
@@ -143,6 +147,8 @@ theorem one_winner_core {rule} {L : LSt} {log : List (Tid × Res)} (g : Good rul
     | touched _ => simp [isIns] at hi
     | broken _ => simp [isIns] at hi
     | sized _ => simp [isIns] at hi
+    | threw => simp [isIns] at hi
+    | count _ _ _ _ => simp [isIns] at hi
   obtain ⟨n, hw, hkn⟩ := hnode
   rw [h.wins] at hw
   simp only [List.mem_filterMap] at hw
@@ -164,6 +170,8 @@ theorem one_winner_core {rule} {L : LSt} {log : List (Tid × Res)} (g : Good rul
     | touched _ => simp [succNode] at hsn
     | broken _ => simp [succNode] at hsn
     | sized _ => simp [succNode] at hsn
+    | threw => simp [succNode] at hsn
+    | count _ _ _ _ => simp [succNode] at hsn
   have : 0 < (s.log.filter (isSucc k)).length := List.length_pos_of_mem hin
   omega
 
@@ -181,7 +189,7 @@ theorem chain_mono_step {rule} {s : St} (h : Inv rule s) (t : Tid) :
   | none => simp
   | some th =>
     simp only
-    have so := step_ok h.good (h.tinv t th hth)
+    have so := step_ok h.good h.contig (h.tinv t th hth)
     refine ⟨chain_sub_apply, fun x hx => key_apply x (h.good.alloc x hx) so.act, ?_⟩
     intro e he
     cases hres : (thStep rule s.L t th).res <;> simp [addLog, he]
